@@ -268,6 +268,9 @@ def extra(stats, tier, seed):
                 det.sleep(5)                                               # a slow callback of the CALLER
                 slow["t1"] = det.S.now
             futs[0].add_done_callback(cb)
+            # the hand-over of the first batch must be OVER (virtual time only advances when every thread is parked): a delegate future that
+            # finishes while `_do_submit` is still wiring it up has its callbacks - the caller's included - run by the hand-over thread itself
+            det.sleep(1)
             t_done = det.S.now
 
             def env():
